@@ -17,7 +17,7 @@ KEYWORDS = {'OPENQASM', 'include', 'qreg', 'creg', 'barrier', 'barrierp', 'gate'
 
 # ------------------------------------------------------------------ expressions
 # tree: ('num', text) ('pi',) ('var', name) ('neg', e) ('bin', op, l, r) ('pow', a, b)
-#       ('call', f, e)
+#       ('call', f, e) ('par', e)   -- `par` is an explicit pair of grouping parentheses
 PREC = {'bin+': 1, 'bin-': 1, 'bin*': 2, 'bin/': 2, 'neg': 3, 'pow': 4}
 FUN = {'sin': math.sin, 'cos': math.cos, 'tan': math.tan, 'ln': math.log,
        'exp': math.exp, 'sqrt': math.sqrt}
@@ -38,6 +38,8 @@ def e_eval(e, env):
             return env[e[1]]
         if k == 'neg':
             return -e_eval(e[1], env)
+        if k == 'par':
+            return e_eval(e[1], env)
         if k == 'bin':
             a, b = e_eval(e[2], env), e_eval(e[3], env)
             if e[1] == '+':
@@ -81,6 +83,8 @@ def e_tokens(e, ctx, rng, extra=0.0):
         t = [e[1]]
     elif k == 'neg':
         t = ['-'] + e_tokens(e[1], 3, rng, extra)
+    elif k == 'par':
+        t = ['('] + e_tokens(e[1], 0, rng, extra) + [')']
     elif k == 'bin':
         p = e_prec(e)
         t = e_tokens(e[2], p, rng, extra) + [e[1]] + e_tokens(e[3], p + 1, rng, extra)
@@ -235,7 +239,11 @@ def ws(rng):
     return rng.choice([' ', ' ', ' ', '  ', '\n', '\n  ', '\t'])
 
 
-def render_expr(e, rng, extra=0.1):
+EXTRA_PARENS = [0.1]      # probability of redundant parentheses (0 = the exact shape)
+
+
+def render_expr(e, rng, extra=None):
+    extra = EXTRA_PARENS[0] if extra is None else extra
     return toks_text(e_tokens(e, 1, rng, extra), rng)
 
 
@@ -249,7 +257,17 @@ def render_call(name, exprs, rng, always_parens=False):
     return name + ('()' if always_parens and rng.random() < 0.2 else '')
 
 
-def render(p: Prog, rng) -> str:
+def render(p: Prog, rng, extra=0.1) -> str:
+    """Text of the program; `extra` = probability of redundant parentheses around any
+    sub-expression (0: expressions are written with exactly the parentheses of the tree)."""
+    EXTRA_PARENS[0] = extra
+    try:
+        return _render(p, rng)
+    finally:
+        EXTRA_PARENS[0] = 0.1
+
+
+def _render(p: Prog, rng) -> str:
     out = ['OPENQASM 2.0;']
     for s in p.stmts:
         k = s[0]
@@ -410,23 +428,26 @@ def expr_for(rng, vars_, depth):
     formals.  Parentheses, all six functions, formals anywhere (also as the base of `^`)."""
     for _ in range(200):
         e = gen_expr(rng, depth, vars_)
-        ok = True
-        for k in range(3 if vars_ else 1):
-            lo = 0.3 if k < 2 else -2.7
-            env = {v: rng.uniform(lo, 2.7) for v in vars_}
-            try:
-                v = e_eval(e, env)
-            except Bad:
-                if k < 2:
-                    ok = False
-                    break
-                continue
-            if not finite_ok(v):
-                ok = False
-                break
-        if ok:
+        if screen_expr(rng, e, vars_):
             return e
     return ('num', '1')
+
+
+def screen_expr(rng, e, vars_):
+    """finite under two positive bindings of the formals, and finite or undefined (never
+    infinite) under a mixed-sign one"""
+    for k in range(3 if vars_ else 1):
+        lo = 0.3 if k < 2 else -2.7
+        env = {v: rng.uniform(lo, 2.7) for v in vars_}
+        try:
+            v = e_eval(e, env)
+        except Bad:
+            if k < 2:
+                return False
+            continue
+        if not finite_ok(v):
+            return False
+    return True
 
 
 def gen_program(rng, builtins, common, max_qubits=6, qiskit_ok=True):
@@ -472,6 +493,12 @@ def gen_program(rng, builtins, common, max_qubits=6, qiskit_ok=True):
     def actuals(name, n, vars_=()):
         out = []
         for _ in range(n):
+            if vars_ and rng.random() < 0.3:
+                # an operator form applied directly to formals (bare `-a`, `(a)`, `-a/2` ...)
+                e = direct_form(rng, list(vars_))
+                if screen_expr(rng, e, list(vars_)):
+                    out.append(e)
+                    continue
             e = expr_for(rng, list(vars_), rng.choice([0, 1, 1, 2, 3]))
             out.append(e)
         return out
@@ -566,3 +593,279 @@ def gen_program(rng, builtins, common, max_qubits=6, qiskit_ok=True):
     for reg in pending:
         p.stmts.append(('qreg',) + reg)
     return p
+
+
+# ------------------------------------------------------------------ gate-body arguments
+# Grammar-directed generation for the expressions handed to gates INSIDE user-gate bodies
+# (CustomGateDef.evaluate_param_exps / replace_param_indices): every operator form applied
+# directly to formal parameters, through 1-3 levels of user-gate nesting, and an enumeration
+# of all operator shapes of depth <= 2 with formals / literals / pi at the leaves.
+V, W = ('var', 'a'), ('var', 'b')
+_N = lambda t: ('num', t)                                     # noqa: E731
+_neg = lambda e: ('neg', e)                                   # noqa: E731
+_par = lambda e: ('par', e)                                   # noqa: E731
+_bin = lambda o, l, r: ('bin', o, l, r)                       # noqa: E731
+_pow = lambda l, r: ('pow', l, r)                             # noqa: E731
+_fn = lambda f, e: ('call', f, e)                             # noqa: E731
+FUNS = ('sin', 'cos', 'tan', 'exp', 'ln', 'sqrt')
+
+# forms over ONE formal `a`
+FORMS1 = [
+    V, _neg(V), _par(V), _neg(_par(V)), _par(_neg(V)), _neg(_neg(V)), _neg(_par(_neg(V))),
+    _par(_par(V)), _neg(_par(_par(V))), _par(_neg(_par(V))),
+    _pow(V, _N('2')), _neg(_pow(V, _N('2'))), _pow(_par(_neg(V)), _N('2')),
+    _pow(V, _neg(_N('1'))), _pow(_N('2'), V), _pow(_N('2'), _neg(V)), _neg(_pow(_N('2'), V)),
+    _pow(V, V),
+    _bin('*', V, _N('2')), _bin('*', _N('2'), V), _bin('/', V, _N('2')), _bin('/', _N('2'), V),
+    _bin('/', _neg(V), _N('2')), _bin('*', _neg(V), ('pi',)), _bin('*', _N('3.5'), V),
+    _bin('*', _N('2'), _neg(V)), _bin('/', _N('1'), _neg(V)),
+    _bin('+', V, _N('1')), _bin('+', _N('1'), V), _bin('-', V, _N('1')), _bin('-', _N('1'), V),
+    _bin('+', _neg(V), _N('1')), _bin('-', _neg(V), _N('1')), _bin('-', ('pi',), V),
+    _bin('-', V, ('pi',)), _bin('+', _neg(('pi',)), V), _bin('-', _N('1'), _neg(V)),
+    _bin('+', V, V), _bin('-', V, V), _bin('*', V, V), _bin('/', V, V), _bin('*', _neg(V), V),
+    _bin('-', _neg(V), V), _neg(_par(_bin('+', V, V))), _neg(_par(_bin('-', V, _N('1')))),
+] + [_fn(f, V) for f in FUNS] + [_neg(_fn(f, V)) for f in FUNS] \
+  + [_fn('sin', _neg(V)), _fn('cos', _neg(V)), _fn('exp', _neg(V)), _fn('tan', _par(V)),
+     _par(_fn('sin', V)), _neg(_par(_fn('cos', V))), _fn('sqrt', _pow(V, _N('2')))]
+# forms over TWO formals `a`, `b`
+FORMS2 = [
+    _bin('+', V, W), _bin('-', V, W), _bin('*', V, W), _bin('/', V, W), _pow(V, W),
+    _bin('-', W, V), _bin('/', W, V), _pow(W, V),
+    _bin('+', _neg(V), W), _bin('-', _neg(V), W), _bin('*', _neg(V), W), _bin('/', _neg(V), W),
+    _bin('+', V, _neg(W)), _bin('-', V, _neg(W)), _bin('*', V, _neg(W)), _bin('/', V, _neg(W)),
+    _pow(V, _neg(W)), _neg(_pow(V, W)), _pow(_par(_neg(V)), W),
+    _neg(_par(_bin('+', V, W))), _neg(_par(_bin('-', V, W))), _bin('-', _par(V), _par(W)),
+    _bin('-', _neg(V), _neg(W)), _bin('-', _neg(W), V), _neg(W), _par(W), _neg(_par(W)), W,
+    _bin('*', _par(_bin('+', V, W)), W), _bin('/', V, _par(_bin('-', V, W))),
+    _fn('sin', _bin('-', V, W)), _bin('*', _fn('cos', V), _neg(W)),
+]
+
+BINDINGS = [(0.7, 1.3), (-0.45, 0.9), (0.35, -1.2), (-0.6, -0.8)]
+
+
+def _lit(v):
+    return _N(repr(v)) if v >= 0 else _neg(_N(repr(-v)))
+
+
+def _value_ok(e, env):
+    try:
+        return finite_ok(e_eval(e, env))
+    except Bad:
+        return False
+
+
+def _keep_calls(p, builtins, calls):
+    """appends those calls that the reference elaboration gives finite, moderate values"""
+    for c in calls:
+        q = Prog()
+        q.stmts = p.stmts + [c]
+        try:
+            _, _, ops = Ref(builtins).run(q)
+        except Bad:
+            continue
+
+        def vals(ops):
+            for o in ops:
+                if o[0] == 'G':
+                    yield from o[3]
+                elif o[0] == 'B':
+                    yield from vals(o[3])
+        if all(finite_ok(v) for v in vals(ops[-1:])):
+            p.stmts.append(c)
+
+
+def nested_form_programs(builtins, forms1=FORMS1, forms2=FORMS2):
+    """One program per form F: user gates that apply F to their formals at nesting depth 1,
+    2 and 3 (F at every level / only at the outermost call / only at the innermost gate),
+    next to plain pass-through chains, each called with positive and negative actuals."""
+    progs = []
+    for two, forms in ((False, forms1), (True, forms2)):
+        for F in forms:
+            p = Prog()
+            p.stmts += [('include',), ('qreg', 'q', 2)]
+            fs = ['a', 'b'] if two else ['a']
+
+            def args(first, swap=False):
+                if not two:
+                    return [first]
+                return [W, first] if swap else [first, W]
+            leaf = 'u2' if two else 'rz'
+
+            def gd(name, body):
+                p.stmts.append(('gatedef', name, fs, ['x'], body))
+            # pass-through chain p1 <- p2 <- p3
+            gd('p1', [('call', leaf, args(V), ['x'])])
+            gd('p2', [('call', 'p1', args(V), ['x'])])
+            gd('p3', [('call', 'p2', args(V), ['x'])])
+            # F at every level
+            gd('g1', [('call', leaf, args(F), ['x'])])
+            gd('g2', [('call', 'g1', args(F), ['x'])])
+            gd('g3', [('call', 'g2', args(F, swap=True), ['x'])])
+            # F only at the outermost call / only in the innermost gate
+            gd('o2', [('call', 'p1', args(F), ['x'])])
+            gd('o3', [('call', 'p2', args(F), ['x'])])
+            gd('i2', [('call', 'g1', args(V), ['x'])])
+            gd('i3', [('call', 'i2', args(V), ['x'])])
+            # F next to other statements of the same body, and as a U argument
+            gd('m2', [('call', 'h', [], ['x']), ('call', 'g1', args(F), ['x']),
+                      ('U', [F, V, _neg(V)], 'x'), ('call', 'p2', args(_neg(V)), ['x'])])
+            calls = []
+            for k, (va, vb) in enumerate(BINDINGS):
+                acts = [_lit(va), _lit(vb)] if two else [_lit(va)]
+                for g in ('g1', 'g2', 'g3', 'p3', 'o2', 'o3', 'i2', 'i3', 'm2'):
+                    calls.append(('call', g, acts, [('q', k % 2)]))
+            _keep_calls(p, builtins, calls)
+            progs.append(p)
+    return progs
+
+
+def _shapes():
+    """operator shapes of depth <= 2; leaves are None, functions are 'F'"""
+    L = None
+    un = [lambda x: _neg(x), lambda x: _par(x), lambda x: _fn('F', x)]
+    bi = [lambda x, y, o=o: _bin(o, x, y) for o in '+-*/'] + [lambda x, y: _pow(x, y)]
+    d1 = [u(L) for u in un] + [b(L, L) for b in bi]
+    d01 = [L] + d1
+    d2 = [u(d) for u in un for d in d1]
+    d2 += [b(l, r) for b in bi for l in d01 for r in d01 if not (l is None and r is None)]
+    return [L] + d1 + d2
+
+
+def _count_leaves(s):
+    if s is None:
+        return 1
+    return sum(_count_leaves(c) for c in s[1:] if c is None or isinstance(c, tuple))
+
+
+def _fill(s, leaves, funs, exponent=False):
+    """shape -> tree; `leaves`: iterator of 'f' (formal) / 'n' (literal) / 'p' (pi)"""
+    if s is None:
+        k = next(leaves)
+        if k == 'f':
+            return ('var', next(funs['formals']))
+        if k == 'p':
+            return ('pi',)
+        return _N(next(funs['exps'] if exponent else funs['nums']))
+    if s[0] == 'call':
+        return ('call', next(funs['funs']), _fill(s[2], leaves, funs))
+    if s[0] == 'bin':
+        return ('bin', s[1], _fill(s[2], leaves, funs), _fill(s[3], leaves, funs))
+    if s[0] == 'pow':
+        return ('pow', _fill(s[1], leaves, funs), _fill(s[2], leaves, funs, True))
+    return (s[0], _fill(s[1], leaves, funs))
+
+
+def body_shape_exprs(full=False):
+    """Expressions over the formals a, b for every operator shape of depth <= 2.  Leaves:
+    all formals; one formal at each position among constants; (full) every assignment of
+    {formal, literal, pi} to the leaves.  Functions, literals and formals rotate."""
+    import itertools
+    out = []
+    rot = {'funs': itertools.cycle(FUNS), 'nums': itertools.cycle(['2', '0.5', '3', '1.5']),
+           'exps': itertools.cycle(['2', '3', '2', '0.5']),
+           'formals': None}
+    seen = set()
+    for s in _shapes():
+        n = _count_leaves(s)
+        if full:
+            assigns = [a for a in itertools.product('fnp', repeat=n)]
+        else:
+            assigns = [tuple('f' * n)]
+            for i in range(n):
+                assigns.append(tuple('f' if j == i else 'np'[(i + j) % 2] for j in range(n)))
+            if n > 1:
+                assigns.append(tuple('n' if j == 0 else 'f' for j in range(n)))
+                assigns.append(tuple('p' if j == n - 1 else 'f' for j in range(n)))
+            else:
+                assigns += [('n',), ('p',)]
+        for a in dict.fromkeys(assigns):
+            for attempt in range(4):
+                rot['formals'] = itertools.cycle(['a', 'b'] if attempt % 2 == 0 else ['b', 'a'])
+                if attempt >= 2:
+                    rot['funs'] = itertools.cycle(('sin', 'cos'))
+                e = _fill(s, iter(a), rot)
+                if attempt >= 2:
+                    rot['funs'] = itertools.cycle(FUNS)
+                if _value_ok(e, {'a': BINDINGS[0][0], 'b': BINDINGS[0][1]}):
+                    break
+            else:
+                continue
+            if e not in seen:
+                seen.add(e)
+                out.append(e)
+    return out
+
+
+def body_shape_programs(builtins, full=False, per_gate=8):
+    """Programs whose user-gate bodies carry the expressions of `body_shape_exprs` as
+    arguments of rz / u3 / U / a nested user gate, called under every binding of the
+    formals (positive, mixed, negative) for which all of them have a value."""
+    exprs = body_shape_exprs(full)
+    buckets = {}
+    for e in exprs:
+        ok = tuple(k for k, (va, vb) in enumerate(BINDINGS)
+                   if _value_ok(e, {'a': va, 'b': vb}))
+        buckets.setdefault(ok, []).append(e)
+    progs = []
+    for ok, es in buckets.items():
+        for i in range(0, len(es), per_gate):
+            chunk = es[i:i + per_gate]
+            p = Prog()
+            p.stmts += [('include',), ('qreg', 'q', 1)]
+            p.stmts.append(('gatedef', 'inner', ['t'], ['y'],
+                            [('call', 'rx', [('var', 't')], ['y'])]))
+            body = []
+            j = 0
+            kind = i // per_gate
+            while j < len(chunk):
+                m = (kind + j) % 4
+                if m == 0:
+                    body.append(('call', 'rz', [chunk[j]], ['x']))
+                    j += 1
+                elif m == 1:
+                    body.append(('call', 'inner', [chunk[j]], ['x']))
+                    j += 1
+                elif len(chunk) - j >= 3:
+                    three = chunk[j:j + 3]
+                    body.append(('call', 'u3', three, ['x']) if m == 2 else ('U', three, 'x'))
+                    j += 3
+                else:
+                    body.append(('call', 'ry', [chunk[j]], ['x']))
+                    j += 1
+            p.stmts.append(('gatedef', 'g', ['a', 'b'], ['x'], body))
+            for k in ok:
+                va, vb = BINDINGS[k]
+                p.stmts.append(('call', 'g', [_lit(va), _lit(vb)], [('q', 0)]))
+            progs.append(p)
+    return progs
+
+
+def direct_form(rng, vars_):
+    """a random operator form applied directly to formals (for gen_program's gate bodies)"""
+    a = ('var', rng.choice(vars_))
+    b = ('var', rng.choice(vars_))
+    c = rng.choice([('pi',), _N(rng.choice(['2', '0.5', '3', '1.5'])), b, b])
+    r = rng.randrange(12)
+    if r == 0:
+        return a
+    if r == 1:
+        return _neg(a)
+    if r == 2:
+        return _par(a)
+    if r == 3:
+        return _neg(_par(a))
+    if r == 4:
+        return _par(_neg(a))
+    if r == 5:
+        return _neg(_neg(a))
+    if r == 6:
+        return _fn(rng.choice(('sin', 'cos', 'exp')), rng.choice([a, _neg(a), _par(a)]))
+    if r == 7:
+        return _pow(rng.choice([a, _par(_neg(a))]), _N(rng.choice(['2', '3'])))
+    x, y = (a, c) if rng.random() < 0.5 else (c, a)
+    if rng.random() < 0.4:
+        x = _neg(x)
+    if rng.random() < 0.25:
+        y = rng.choice([_neg(y), _par(y)])
+    e = _bin(rng.choice('+-*/'), x, y)
+    return _neg(_par(e)) if rng.random() < 0.15 else e
